@@ -466,7 +466,12 @@ func fragQuoteRT(g *Gen, n int, o *Out) {
 			r := evalText(o, nil, text, datum)
 			o.count(fmt.Sprintf("style%d:%s", style, r))
 			if r != "T" {
-				o.finding(Finding{Property: "C16", Kind: "failing-input", What: fmt.Sprintf("X == <quoted s> is %s for X = s", r), Request: lastReq(o), Detail: fmt.Sprintf("s=%q text=%q", s, text)})
+				class := ""
+				if style == 2 && s != "" && ptrShapedRe.MatchString(s) {
+					// the one known family: a double-quoted literal of JSON-pointer shape
+					class = "double-quoted-json-pointer-shaped-literal"
+				}
+				o.finding(Finding{Property: "C16", Kind: "failing-input", What: fmt.Sprintf("X == <quoted s> is %s for X = s", r), Request: lastReq(o), Detail: fmt.Sprintf("s=%q text=%q", s, text), Class: class})
 			}
 		}
 	}
